@@ -176,14 +176,8 @@ func runJobs(jobPath, outPath, only string, verbose bool) int {
 	var wg sync.WaitGroup
 	var outMu sync.Mutex
 	for i, p := range todo {
-		if p.cfg.Workers <= 0 || par > 1 {
-			w := runtime.NumCPU() / par
-			if w < 2 {
-				w = 2
-			}
-			if p.cfg.Workers <= 0 || p.cfg.Workers > w {
-				p.cfg.Workers = w
-			}
+		if p.cfg.Workers <= 0 {
+			p.cfg.Workers = runtime.NumCPU()
 		}
 		wg.Add(1)
 		sem <- struct{}{}
